@@ -28,7 +28,8 @@
  *   own-live-count        live tokens != sum of lengths (leak, or finalised late/early)
  *   own-leak-at-end       live tokens after deleting every container
  *   own-crash             the child process died (ASan/UBSan/signal/timeout)
- * Known-finding signatures: own-box-assign-shallow, own-list-resize-raw, own-list-pushat-leak.
+ *   own-list-pushat-leak  a refused List push_at left a constructed element behind (defect repaired by 4077d96)
+ * Known-finding signatures: own-box-assign-shallow, own-list-resize-raw.
  * The whole file runs in a forked child with alarm(); the parent reports how the child ended.
  */
 #include "common.h"
@@ -272,7 +273,7 @@ static void check_and_print(var* H, const char* outcome, int t1, int t2) {
   if (contbad >= 0) X("sig=own-contents line=%zu what=contents of container %d differ from the reference", cur_line, contbad);
   if (n_live != contained) {
     if (ctx_op == OP_PUSHAT && ctx_kind == K_LST && ctx_raised && n_live == contained + 1)
-      kf("own-list-pushat-leak", "List_Push_At constructed the element before validating the index: the exception leaves a live element that is in no container");
+      X("sig=own-list-pushat-leak line=%zu what=a refused push_at left a constructed element that is in no container (defect repaired by 4077d96)", cur_line);
     else if (ctx_op == OP_SET && ctx_kind == K_BARR && !ctx_raised && n_live == contained + 1)
       kf("own-box-assign-shallow", "Box_Assign overwrote the pointer of a stored Box: the replaced pointee was not finalised");
     else if (ctx_op == OP_BASSIGN && n_live == contained + 1)
